@@ -195,6 +195,8 @@ pub fn gen_srv_case(rng: &mut Rng, profile: Profile, prop: &'static str) -> SrvC
     let faults_enabled = matches!(profile, Profile::Hostile | Profile::Routing) && rng.chance(1, 2);
     let eintr_enabled = profile != Profile::WellBehaved && profile != Profile::Expect && rng.chance(1, 2);
     let shuffle = rng.chance(3, 4);
+    // in a quarter of the histories simulated time passes between steps and the wall clock is stepped
+    let time_passes = rng.chance(1, 4);
     let big_responses = rng.chance(1, 3);
     let nsteps = match profile {
         _ if churn => rng.range(400, 1000),
@@ -291,7 +293,7 @@ pub fn gen_srv_case(rng: &mut Rng, profile: Profile, prop: &'static str) -> SrvC
         let w_fork = if forks_left > 0 && sim.stream_fds() > 0 { 4 } else { 0 };
         // simulated time passes between steps in a quarter of the histories (slow clients, a slow
         // application): seconds to days. Nothing in the properties depends on time.
-        let w_sleep = if (case.cap_c2s + case.cap_s2c) % 4 == 1 { 4 } else { 0 };
+        let w_sleep = if time_passes { 4 } else { 0 };
         let weights = [w_poll, w_connect, w_send, w_recv, w_resp, w_respall, w_flush, w_hostile, w_setlimit, w_drain, w_fault, w_fork, w_sleep];
         if weights[..12].iter().sum::<usize>() == 0 {
             break;
@@ -436,7 +438,14 @@ pub fn gen_srv_case(rng: &mut Rng, profile: Profile, prop: &'static str) -> SrvC
                 forks_left -= 1;
                 SStep::Fork
             }
-            12 => SStep::Sleep(*rng.pick(&[1u64, 5, 11, 31, 61, 121, 601, 3_601, 86_401, 1_000_000])),
+            12 => {
+                if rng.chance(1, 4) {
+                    // the wall clock is stepped: back by seconds .. decades, forward past 2^31 and 2^32 seconds
+                    SStep::ClockStep(*rng.pick(&[-1i64, -61, -3_600, -86_400, -1_000_000_000, 3_600, 450_000_000, 2_600_000_000]))
+                } else {
+                    SStep::Sleep(*rng.pick(&[1u64, 5, 11, 31, 61, 121, 601, 3_601, 86_401, 1_000_000]))
+                }
+            }
             _ => {
                 let c = *rng.pick(&hostiles);
                 match rng.below(4) {
